@@ -19,7 +19,15 @@ RULE = ('exhaustive over all Pauli strings / bsf vectors / ordered pairs for n<=
         'bsp over DTYPES x ARGUMENT SHAPES: all four forms (vector.vector, vector.matrix, matrix.vector, matrix.matrix) '
         'x every ordered pair of dtypes from bool, int8, uint8, int16, int32, uint32, int64 (equal and mixed) x contents '
         'with a controlled number (0, 1, 2, 3, 4, all) of anticommuting qubits incl. Y-vs-Y style double overlaps, '
-        'n = 1..300, plus bsf_wt / bsf_to_pauli / pack on every dtype; a case is non-trivial '
+        'n = 1..300, plus bsf_wt / bsf_to_pauli / pack on every dtype; '
+        'STACK SIZES x FORMS: every stacking of m operators against k operators, m, k = 0..4 (0..6 thorough) incl. '
+        'single-operator stacks (1 x 2n, one-column right-hand sides in 3 memory presentations), empty stacks and stacks '
+        'with repeated operators: all four bsp forms taken from the same stacking have the documented shapes ((m,k), (k,), '
+        '(m,), 0-d) and agree entry-wise with the commutation table, conversions / weights of the same stacks have the '
+        'documented types (str vs one-element list, vector vs 1 x 2n matrix); every real result is rendered '
+        'shape-tolerantly (an unexpected shape / type is an outcome that disagrees with the model, not a harness error); '
+        'dense accumulator-boundary operators also in compact dtypes (int8 / uint8 / bool) up to n = 2^24+3 in every '
+        'tier; a case is non-trivial '
         'when its operand is not all-identity/all-zero; distinct = distinct protocol lines')
 
 ANTI = {(a, b): (a != 'I' and b != 'I' and a != b) for a in 'IXYZ' for b in 'IXYZ'}
@@ -38,6 +46,57 @@ def safe(f):
         return type(ex).__name__
 
 
+# shape-tolerant rendering of what the real code returned: a result of an unexpected shape / type is an OUTCOME (it is
+# put on the wire as 'shape<...>' and so disagrees with the model, whose reply always has the documented shape), never
+# a harness error.  The documented shapes: bsp(vector, vector) is a 0-d integer, bsp(vector, (2n, k)) has shape (k,),
+# bsp((m, 2n), vector) shape (m,), bsp((m, 2n), (2n, k)) shape (m, k) - for EVERY m, k >= 1 (single-operator stacks
+# included); pauli_to_bsf(str) shape (2n,), pauli_to_bsf(list of m) shape (m, 2n); bsf_to_pauli(vector) a str,
+# bsf_to_pauli((m, 2n)) a list of m str; weights are 0-d integers.
+
+def describe(x):
+    try:
+        if isinstance(x, np.ndarray):
+            return 'shape<{}:{}>'.format(','.join(map(str, x.shape)), x.dtype.kind)
+        if isinstance(x, (list, tuple)):
+            return 'shape<{}:{}>'.format(type(x).__name__, len(x))
+        return 'shape<{}>'.format(type(x).__name__)
+    except Exception:
+        return 'shape<?>'
+
+
+def is_int0(x):
+    return isinstance(x, (int, np.integer, np.bool_)) or (isinstance(x, np.ndarray) and x.ndim == 0
+                                                          and x.dtype.kind in 'biu')
+
+
+def r_int(x):
+    """a scalar integer result (python int, numpy integer or 0-d integer array)"""
+    return str(int(x)) if is_int0(x) else describe(x)
+
+
+def r_bits(x, length=None):
+    if isinstance(x, np.ndarray) and x.ndim == 1 and x.dtype.kind in 'biu' and (length is None or len(x) == length):
+        return bits(x)
+    return describe(x)
+
+
+def r_mat(x, shape=None):
+    if isinstance(x, np.ndarray) and x.ndim == 2 and x.dtype.kind in 'biu' and (shape is None or x.shape == tuple(shape)):
+        return mat(x)
+    return describe(x)
+
+
+def r_col(x, m):
+    """a matrix . vector result (shape (m,)) as the m x 1 matrix the model's bspmat replies with"""
+    if isinstance(x, np.ndarray) and x.shape == (m,) and x.dtype.kind in 'biu':
+        return mat(x.reshape(m, 1))
+    return describe(x)
+
+
+def r_str(x, n=None):
+    return x if isinstance(x, str) and (n is None or len(x) == n) else describe(x)
+
+
 def run(ctx):
     from qecsim import paulitools as pt
     rng = ctx.rng
@@ -47,16 +106,17 @@ def run(ctx):
         strs = [''.join(t) for t in itertools.product('IXYZ', repeat=n)]
         for s in strs:
             b = pt.pauli_to_bsf(s)
-            ctx.case('c09 tobsf ' + s, bits(b), nontrivial=(s != 'I' * n))
-            ctx.case('c09 ofbsf ' + bits(b), safe(lambda: pt.bsf_to_pauli(b)), nontrivial=(s != 'I' * n))
-            ctx.case('c09 bsfwt ' + bits(b), str(int(pt.bsf_wt(b))), nontrivial=(s != 'I' * n))
-            ctx.case('c09 pauliwt ' + s, str(int(pt.pauli_wt(s))), nontrivial=(s != 'I' * n))
+            ctx.case('c09 tobsf ' + s, r_bits(b, 2 * n), nontrivial=(s != 'I' * n))
+            b = np.array(py_to_bsf(s))      # the operator itself (the harness' own conversion) for the other calls
+            ctx.case('c09 ofbsf ' + bits(b), safe(lambda: r_str(pt.bsf_to_pauli(b))), nontrivial=(s != 'I' * n))
+            ctx.case('c09 bsfwt ' + bits(b), r_int(pt.bsf_wt(b)), nontrivial=(s != 'I' * n))
+            ctx.case('c09 pauliwt ' + s, r_int(pt.pauli_wt(s)), nontrivial=(s != 'I' * n))
         if n <= 3:
             for s in strs:
-                bs = pt.pauli_to_bsf(s)
+                bs = np.array(py_to_bsf(s))
                 for t in strs:
-                    bt = pt.pauli_to_bsf(t)
-                    v = str(int(pt.bsp(bs, bt)))
+                    bt = np.array(py_to_bsf(t))
+                    v = r_int(pt.bsp(bs, bt))
                     nt = (s != 'I' * n and t != 'I' * n)
                     ctx.case('c09 bsp {} {}'.format(bits(bs), bits(bt)), v, nontrivial=nt)
                     # the independent group-theoretic table must give the same answer as the code
@@ -69,23 +129,28 @@ def run(ctx):
         A = [rand_pauli(rng, n) for _ in range(ra)]
         B = [rand_pauli(rng, n) for _ in range(rb)]
         ctx.count('random_n', n)
-        bA, bB = pt.pauli_to_bsf(A), pt.pauli_to_bsf(B)
-        # list conversion is row-wise conversion
-        for s, row in zip(A, bA):
-            ctx.case('c09 tobsf ' + s, bits(row))
+        # the stacks themselves are built by the harness (py_to_bsf): a wrong list conversion is then a wrong REPLY, it
+        # cannot make the later questions self-consistent
+        bA, bB = np.array([py_to_bsf(p) for p in A]), np.array([py_to_bsf(p) for p in B])
+        cA = pt.pauli_to_bsf(A)
+        ok = isinstance(cA, np.ndarray) and cA.shape == (ra, 2 * n) and cA.dtype.kind in 'biu'
+        # list conversion is row-wise conversion (one row per list element, repeated elements included)
+        for i, s in enumerate(A):
+            ctx.case('c09 tobsf ' + s, r_bits(cA[i], 2 * n) if ok else describe(cA))
         back = pt.bsf_to_pauli(bA)
-        for row, s in zip(bA, back):
-            ctx.case('c09 ofbsf ' + bits(row), s)
-        ctx.case('c09 bspmat {} {}'.format(mat(bA), mat(bB)), mat(pt.bsp(bA, bB.T)))
-        ctx.case('c09 synd {} {}'.format(mat(bB), bits(bA[0])), bits(pt.bsp(bA[0], bB.T)))
+        okb = isinstance(back, list) and len(back) == ra
+        for i, row in enumerate(bA):
+            ctx.case('c09 ofbsf ' + bits(row), r_str(back[i]) if okb else describe(back))
+        ctx.case('c09 bspmat {} {}'.format(mat(bA), mat(bB)), r_mat(pt.bsp(bA, bB.T), (ra, rb)))
+        ctx.case('c09 synd {} {}'.format(mat(bB), bits(bA[0])), r_bits(pt.bsp(bA[0], bB.T), rb))
         # matrix . vector form: bsp(A, b) for vector b
-        ctx.case('c09 bspmat {} {}'.format(mat(bA), mat(bB[:1])), mat(np.array([pt.bsp(bA, bB[0])]).T))
-        ctx.case('c09 bsp {} {}'.format(bits(bA[0]), bits(bB[0])), str(int(pt.bsp(bA[0], bB[0]))))
-        ctx.case('c09 anti {} {}'.format(A[0], B[0]), str(int(pt.bsp(bA[0], bB[0]))))
-        ctx.case('c09 bsfwtmat ' + mat(bA), str(int(pt.bsf_wt(bA))))
-        ctx.case('c09 pauliwt ' + A[0], str(int(pt.pauli_wt(A[0]))))
+        ctx.case('c09 bspmat {} {}'.format(mat(bA), mat(bB[:1])), r_col(pt.bsp(bA, bB[0]), ra))
+        ctx.case('c09 bsp {} {}'.format(bits(bA[0]), bits(bB[0])), r_int(pt.bsp(bA[0], bB[0])))
+        ctx.case('c09 anti {} {}'.format(A[0], B[0]), r_int(pt.bsp(bA[0], bB[0])))
+        ctx.case('c09 bsfwtmat ' + mat(bA), r_int(pt.bsf_wt(bA)))
+        ctx.case('c09 pauliwt ' + A[0], r_int(pt.pauli_wt(A[0])))
         # weights of lists: sum
-        ctx.case('c09 bsfwtmat ' + mat(bB), str(int(pt.pauli_wt(B))))
+        ctx.case('c09 bsfwtmat ' + mat(bB), r_int(pt.pauli_wt(B)))
     # ipauli / ibsf: every (n, lo, hi) incl. invalid ranges
     n1 = ctx.scale(5, 6)
     for n in range(0, n1 + 1):
@@ -98,11 +163,11 @@ def run(ctx):
                     # ibsf = pauli_to_bsf of ipauli, element by element
                     for p, b in zip(pt.ipauli(n, lo, hi), pt.ibsf(n, lo, hi)):
                         if n > 0:
-                            ctx.case('c09 tobsf ' + p, bits(b), nontrivial=False)
+                            ctx.case('c09 tobsf ' + r_str(p, n), r_bits(b, 2 * n), nontrivial=False)
         ctx.count('ipauli_n', n)
     # default max_weight=None means n
     for n in range(1, 5):
-        ctx.case('c09 ipauli {} 0 {}'.format(n, n), 'ok ' + ' '.join(pt.ipauli(n)))
+        ctx.case('c09 ipauli {} 0 {}'.format(n, n), safe(lambda n=n: 'ok ' + ' '.join(pt.ipauli(n))))
     # pack / unpack every length
     L = ctx.scale(80, 200)
     for length in range(0, L + 1):
@@ -113,14 +178,20 @@ def run(ctx):
                 b = np.ones(length, dtype=int)
             else:
                 b = np.array([rng.randint(0, 1) for _ in range(length)], dtype=int)
-            hx, ln = pt.pack(b)
+            pk = pt.pack(b)
+            if not (isinstance(pk, tuple) and len(pk) == 2 and isinstance(pk[0], str) and is_int0(pk[1])):
+                ctx.case('c09 pack ' + bits(b), describe(pk), nontrivial=bool(b.any()))
+                continue
+            hx, ln = pk[0], int(pk[1])
             ctx.case('c09 pack ' + bits(b), '{} {}'.format(hx, ln), nontrivial=bool(b.any()))
-            ctx.case('c09 unpack {} {}'.format(hx if hx else '_', ln), bits(pt.unpack((hx, ln))),
+            # unpack is asked about the documented packing of b (the harness' own), so a wrong pack cannot mask it
+            hx = py_pack(b)
+            ctx.case('c09 unpack {} {}'.format(hx if hx else '_', length), r_bits(pt.unpack((hx, length)), length),
                      nontrivial=bool(b.any()))
             # unpack with shorter length than the packed one (prefix)
             if length:
                 k = rng.randint(0, length)
-                ctx.case('c09 unpack {} {}'.format(hx, k), bits(pt.unpack((hx, k))), nontrivial=bool(b[:k].any()))
+                ctx.case('c09 unpack {} {}'.format(hx, k), r_bits(pt.unpack((hx, k)), k), nontrivial=bool(b[:k].any()))
         ctx.count('pack_len', length // 8 * 8)
     ctx.exhaustive = False
     ctx.extra['exhaustive_subdomains'] = ['all strings/bsf n<={}'.format(n0), 'all ordered pairs n<=3',
@@ -153,20 +224,28 @@ def run(ctx):
     sizes = [127, 128, 129, 255, 256, 257, 32767, 32768, 32769, 65535, 65536, 65537, (1 << 20) + 1]
     if not ctx.quick():
         sizes += [(1 << 24) + 1, (1 << 24) + 3]     # float32 mantissa; needs ~2 GB and ~40 s
-    for n in sizes:
+    dense = [(n, int) for n in sizes]
+    # the same boundaries with the operators stored compactly (int8 / uint8 / bool, as one stores an operator on 2^24
+    # qubits): 16x less memory, so the single-precision boundary 2^24 is affordable in every tier
+    dense += [(n, dt) for n in (127, 129, 255, 257, 32769, 65537) for dt in (np.int8, np.uint8, np.bool_)]
+    dense += [((1 << 24) + 1, np.int8), ((1 << 24) + 3, np.bool_)]
+    for n, dt in dense:
         for overlap in (n, n - 1):
-            a = np.zeros(2 * n, dtype=int); b = np.zeros(2 * n, dtype=int)
+            a = np.zeros(2 * n, dtype=dt); b = np.zeros(2 * n, dtype=dt)
             a[:n] = 1                    # X on every qubit
             b[n:n + overlap] = 1         # Z on the first `overlap` qubits
-            got = int(pt.bsp(a, b)); want = overlap % 2
-            ctx.count('dense_bsp_n', n)
+            got = r_int(pt.bsp(a, b)); got2 = r_int(pt.bsp(b, a)); want = str(overlap % 2)
+            ctx.count('dense_bsp_n', n); ctx.count('dense_bsp_dtype', np.dtype(dt).name)
             ctx.evaluations += 1
-            if got != want or int(pt.bsp(b, a)) != want:
+            if got != want or got2 != want:
                 ctx.monitor_fail('bsp of dense operators disagrees with the Pauli-group commutation (X^n vs Z^m '
-                                 'anticommute iff m is odd)', {'n': n, 'z_weight': overlap, 'bsp': got, 'expected': want})
-            if overlap == n and int(pt.bsf_wt(a ^ b if False else a)) != n:
-                ctx.monitor_fail('bsf_wt of X^n is not n', {'n': n})
+                                 'anticommute iff m is odd)', {'n': n, 'z_weight': overlap, 'dtype': np.dtype(dt).name,
+                                                               'bsp(a,b)': got, 'bsp(b,a)': got2, 'expected': want})
+            if overlap == n and r_int(pt.bsf_wt(a)) != str(n):
+                ctx.monitor_fail('bsf_wt of X^n is not n', {'n': n, 'dtype': np.dtype(dt).name,
+                                                            'got': r_int(pt.bsf_wt(a))})
             del a, b
+    part_stackings(ctx, pt)
     part_purity(ctx, pt)
     part_generators(ctx, pt)
     part_histories(ctx, pt)
@@ -190,6 +269,13 @@ def py_to_bsf(s):
 def py_of_bsf(b):
     n = len(b) // 2
     return ''.join('IXZY'[int(b[i]) + 2 * int(b[n + i])] for i in range(n))
+
+
+def py_pack(b):
+    """documented packing: big-endian bits, zero-padded to whole bytes, as a hex string"""
+    b = [int(x) for x in b]
+    return ''.join('{:02x}'.format(int(''.join(map(str, b[i:i + 8] + [0] * (8 - len(b[i:i + 8])))), 2))
+                   for i in range(0, len(b), 8))
 
 
 def py_anti(s, t):
@@ -335,9 +421,13 @@ def truth_and_case(ctx, pure, fname, vals, res):
     if fname == 'pauli_to_bsf':
         s = vals[0]
         rows = [s] if isinstance(s, str) else list(s)
+        # a string gives a vector, a list of m strings an (m, 2n) matrix - also for m = 1
+        wshape = (2 * len(s),) if isinstance(s, str) else (len(rows), 2 * len(rows[0]))
+        if not isinstance(res, np.ndarray) or res.shape != wshape or res.dtype.kind not in 'biu':
+            for p in rows:
+                ctx.case('c09 tobsf ' + p, describe(res), nontrivial=False)
+            return bad('returned {} instead of an integer array of shape {}'.format(describe(res), wshape))
         got = np.atleast_2d(res)
-        if got.shape != (len(rows), 2 * len(rows[0])):
-            return bad('returned shape {}'.format(res.shape))
         for p, r in zip(rows, got):
             ctx.case('c09 tobsf ' + p, bits(r), nontrivial=False)
             if [int(x) for x in r] != py_to_bsf(p):
@@ -345,6 +435,13 @@ def truth_and_case(ctx, pure, fname, vals, res):
     elif fname == 'bsf_to_pauli':
         b = vals[0]
         rows = np.atleast_2d(b)
+        # a vector gives a string, an (m, 2n) matrix a list of m strings - also for m = 1
+        if not (isinstance(res, str) if b.ndim == 1 else (isinstance(res, list) and len(res) == len(rows)
+                                                          and all(isinstance(p, str) for p in res))):
+            for r in rows:
+                ctx.case('c09 ofbsf ' + bits(r), describe(res), nontrivial=False)
+            return bad('returned {!r} instead of {}'.format(res, 'a string' if b.ndim == 1 else
+                                                            'a list of {} strings'.format(len(rows))))
         got = [res] if b.ndim == 1 else list(res)
         for r, p in zip(rows, got):
             ctx.case('c09 ofbsf ' + bits(r), str(p), nontrivial=False)
@@ -352,54 +449,61 @@ def truth_and_case(ctx, pure, fname, vals, res):
                 return bad('is not the documented bijection', bsf=bits(r), got=p)
     elif fname == 'bsf_wt':
         b = vals[0]
-        ctx.case(('c09 bsfwt ' + bits(b)) if b.ndim == 1 else ('c09 bsfwtmat ' + mat(b)), str(int(res)), nontrivial=False)
+        ctx.case(('c09 bsfwt ' + bits(b)) if b.ndim == 1 else ('c09 bsfwtmat ' + mat(b)), r_int(res), nontrivial=False)
         want = sum(c != 'I' for r in np.atleast_2d(b) for c in py_of_bsf(r))
-        if int(res) != want:
-            return bad('does not count the non-identity factors', got=int(res), expected=want)
+        if r_int(res) != str(want):
+            return bad('does not count the non-identity factors', got=r_int(res), expected=want)
     elif fname == 'pauli_wt':
         s = vals[0]
         rows = [s] if isinstance(s, str) else list(s)
         if isinstance(s, str):
-            ctx.case('c09 pauliwt ' + s, str(int(res)), nontrivial=False)
+            ctx.case('c09 pauliwt ' + s, r_int(res), nontrivial=False)
         else:
-            ctx.case('c09 bsfwtmat ' + mat([py_to_bsf(p) for p in rows]), str(int(res)), nontrivial=False)
+            ctx.case('c09 bsfwtmat ' + mat([py_to_bsf(p) for p in rows]), r_int(res), nontrivial=False)
         want = sum(c != 'I' for p in rows for c in p)
-        if int(res) != want:
-            return bad('does not count the non-identity factors', got=int(res), expected=want)
+        if r_int(res) != str(want):
+            return bad('does not count the non-identity factors', got=r_int(res), expected=want)
     elif fname == 'bsp':
         a, b = vals          # b is given as bsf rows (vector or matrix of operators), i.e. BEFORE transposition
         A, B = np.atleast_2d(a), np.atleast_2d(b)
         want = np.array([[py_anti(py_of_bsf(x), py_of_bsf(y)) for y in B] for x in A])
-        got = np.asarray(res)
+        m, k = len(A), len(B)
+        # documented result shape of each form, for every stack size (single-operator stacks included)
+        wshape = () if a.ndim == 1 and b.ndim == 1 else (k,) if a.ndim == 1 else (m,) if b.ndim == 1 else (m, k)
+        okr = (is_int0(res) if wshape == () else
+               isinstance(res, np.ndarray) and res.shape == wshape and res.dtype.kind in 'biu')
+        got = np.asarray(res) if okr else None
         if a.ndim == 1 and b.ndim == 1:
-            ctx.case('c09 bsp {} {}'.format(bits(a), bits(b)), str(int(res)), nontrivial=False)
-            got2 = got.reshape(1, 1) if got.size == 1 else None
+            ctx.case('c09 bsp {} {}'.format(bits(a), bits(b)), r_int(res), nontrivial=False)
         elif a.ndim == 1:
-            ctx.case('c09 synd {} {}'.format(mat(B), bits(a)), bits(got) if got.ndim == 1 else 'shape', nontrivial=False)
-            got2 = got.reshape(1, -1) if got.ndim == 1 else None
+            ctx.case('c09 synd {} {}'.format(mat(B), bits(a)), r_bits(res, k), nontrivial=False)
         elif b.ndim == 1:
-            ctx.case('c09 bspmat {} {}'.format(mat(A), mat(B)), mat(np.array([got]).T) if got.ndim == 1 else 'shape',
-                     nontrivial=False)
-            got2 = got.reshape(-1, 1) if got.ndim == 1 else None
+            ctx.case('c09 bspmat {} {}'.format(mat(A), mat(B)), r_col(res, m), nontrivial=False)
         else:
-            ctx.case('c09 bspmat {} {}'.format(mat(A), mat(B)), mat(got) if got.ndim == 2 else 'shape', nontrivial=False)
-            got2 = got if got.ndim == 2 else None
-        if got2 is None or got2.shape != want.shape or not np.array_equal(got2, want):
+            ctx.case('c09 bspmat {} {}'.format(mat(A), mat(B)), r_mat(res, (m, k)), nontrivial=False)
+        if not okr:
+            return bad('returned {} where the {} form on a stack of {} and a stack of {} operator(s) has shape {}: the '
+                       'forms of bsp no longer agree element-wise (entry [i, j] of the matrix form must be bsp(a_i, b_j))'
+                       .format(describe(res), '.'.join('vector' if x.ndim == 1 else 'matrix' for x in (a, b)), m, k,
+                               wshape), got=repr(res)[:200], expected=mat(want), a=as_paulis(a), b=as_paulis(b))
+        if not np.array_equal(got.reshape(want.shape), want):
             return bad('disagrees with the Pauli-group commutation', got=show(got), expected=mat(want),
                        a=as_paulis(a), b=as_paulis(b))
     elif fname == 'pack':
         b = vals[0]
+        if not (isinstance(res, tuple) and len(res) == 2 and isinstance(res[0], str) and is_int0(res[1])):
+            ctx.case('c09 pack ' + bits(b), describe(res), nontrivial=False)
+            return bad('returned {!r} instead of (hex string, length)'.format(res))
         ctx.case('c09 pack ' + bits(b), '{} {}'.format(res[0], res[1]), nontrivial=False)
-        want = ''.join('{:02x}'.format(int(''.join(str(int(x)) for x in list(b[i:i + 8]) + [0] * (8 - len(b[i:i + 8]))),
-                                           2)) for i in range(0, len(b), 8))
+        want = py_pack(b)
         if (res[0], res[1]) != (want, len(b)):
             return bad('is not the big-endian bit packing', got=repr(res), expected=repr((want, len(b))))
     elif fname == 'unpack':
         hx, ln = vals[0]
-        ctx.case('c09 unpack {} {}'.format(hx if hx else '_', ln), bits(res), nontrivial=False)
+        ctx.case('c09 unpack {} {}'.format(hx if hx else '_', ln), r_bits(res, ln), nontrivial=False)
         want = [int(c) for c in ''.join('{:08b}'.format(x) for x in bytes.fromhex(hx))][:ln]
-        if [int(x) for x in res] != want:
-            return bad('does not invert pack', got=bits(res), expected=bits(want))
+        if r_bits(res, ln) != bits(want):
+            return bad('does not invert pack', got=r_bits(res, ln), expected=bits(want))
 
 
 def rand_bsf(rng, n, rows=None):
@@ -709,6 +813,114 @@ def part_histories(ctx, pt):
         P.verify('end of history')
 
 
+# ------------------------------------------------------------------------------------------ stack sizes x forms
+# "all stackings into matrices": a stack of m operators against a stack of k operators for EVERY (m, k), including the
+# degenerate ones - a stack of one operator (1 x 2n matrix, whose transpose is a one-column right-hand side) and the
+# empty stack (0 x 2n).  All four forms of bsp are taken from the SAME stacking and must have the documented shapes
+# ((m, k), (k,), (m,), scalar) and agree entry by entry with the commutation of the operators; the conversions and
+# weights of the same stacks must have the documented types (list of m strings / (m, 2n) matrix, also for m = 1).
+
+def rhs_presentations(rng, Bi):
+    """the right-hand side `rows.T` of a stack Bi (k x 2n) as the caller may hold it: (description, array, base)"""
+    k, w = Bi.shape
+    out = [('rows.T', Bi.T, Bi), ('contiguous copy of rows.T', np.ascontiguousarray(Bi.T), None)]
+    wide = np.full((w, k + 3), FILL, dtype=int)
+    j = rng.randint(0, 3)
+    wide[:, j:j + k] = Bi.T
+    out.append(('columns {}..{} of a wider array'.format(j, j + k - 1), wide[:, j:j + k], wide))
+    return out
+
+
+def part_stackings(ctx, pt):
+    rng = ctx.rng
+    ns = [1, 2, 3, 5, 8, 17] if ctx.quick() else [1, 2, 3, 4, 5, 8, 9, 17, 64, 130]
+    top = ctx.scale(4, 6)
+    for n in ns:
+        for m in list(range(1, top + 1)) + [0]:            # the empty stack last
+            for k in list(range(1, top + 1)) + [0]:
+                P = Pure(ctx, 'stackings')
+                A = [rand_pauli(rng, n) for _ in range(m)]
+                B = [rand_pauli(rng, n) for _ in range(k)]
+                if m > 1 and rng.random() < 0.3:
+                    A[rng.randrange(1, m)] = A[0]          # a stack may contain the same operator more than once
+                if k > 1 and rng.random() < 0.3:
+                    B[rng.randrange(1, k)] = B[0]
+                Ai = np.array([py_to_bsf(p) for p in A], dtype=int).reshape(m, 2 * n)
+                Bi = np.array([py_to_bsf(p) for p in B], dtype=int).reshape(k, 2 * n)
+                want = np.array([[py_anti(p, q) for q in B] for p in A], dtype=int).reshape(m, k)
+                ctx.count('stackings.m_x_k', '{}x{}'.format(m, k)); ctx.count('stackings.n', n)
+                pres = rhs_presentations(rng, Bi)
+                dsc, bt, base = pres[(m + k + n) % len(pres)]
+                held = [x for x in (Ai, base) if x is not None]
+
+                def empty_ok(res, shape, call):
+                    """forms involving the empty stack have no model question: shape and type only"""
+                    if not (isinstance(res, np.ndarray) and res.shape == shape and res.dtype.kind in 'biu'):
+                        P.fail('{} returned {} where the result has shape {} (one entry per pair of operators)'.format(
+                            call, describe(res), shape), {'A': A, 'B': B})
+                # matrix . matrix
+                call = 'bsp(<stack of {}> {}, <stack of {}: {}> {})'.format(m, A, k, dsc, B)[:300]
+                r = P.call(call, pt.bsp, [Ai, bt], held)
+                if r is None:
+                    return
+                if m and k:
+                    truth_and_case(ctx, P, 'bsp', [Ai, Bi], r)
+                else:
+                    empty_ok(r, (m, k), call)
+                # vector . matrix: row i of the matrix form
+                for i in range(m):
+                    call = 'bsp({}, <stack of {}: {}> {})'.format(A[i], k, dsc, B)[:300]
+                    r = P.call(call, pt.bsp, [Ai[i], bt], held)
+                    if r is None:
+                        return
+                    if k:
+                        truth_and_case(ctx, P, 'bsp', [Ai[i], Bi], r)
+                    else:
+                        empty_ok(r, (0,), call)
+                # matrix . vector: column j of the matrix form
+                for j in range(k):
+                    call = 'bsp(<stack of {}> {}, {})'.format(m, A, B[j])[:300]
+                    r = P.call(call, pt.bsp, [Ai, Bi[j]], held)
+                    if r is None:
+                        return
+                    if m:
+                        truth_and_case(ctx, P, 'bsp', [Ai, Bi[j]], r)
+                    else:
+                        empty_ok(r, (0,), call)
+                    # vector . vector: entry (i, j)
+                    for i in range(m):
+                        truth_and_case(ctx, P, 'bsp', [Ai[i], Bi[j]],
+                                       P.call('bsp({}, {})'.format(A[i], B[j]), pt.bsp, [Ai[i], Bi[j]], held))
+                # conversions and weights of the same stack
+                if m:
+                    truth_and_case(ctx, P, 'pauli_to_bsf', [list(A)],
+                                   P.call('pauli_to_bsf({!r})'.format(A)[:300], pt.pauli_to_bsf, [list(A)]))
+                    truth_and_case(ctx, P, 'bsf_to_pauli', [Ai],
+                                   P.call('bsf_to_pauli(<stack of {}> {})'.format(m, A)[:300], pt.bsf_to_pauli, [Ai], held))
+                    truth_and_case(ctx, P, 'bsf_wt', [Ai], P.call('bsf_wt(<stack of {}> {})'.format(m, A)[:300],
+                                                                   pt.bsf_wt, [Ai], held))
+                    truth_and_case(ctx, P, 'pauli_wt', [list(A)], P.call('pauli_wt({!r})'.format(A)[:300], pt.pauli_wt,
+                                                                          [list(A)]))
+                    # a single operator as a string and as a one-element list are different stackings
+                    truth_and_case(ctx, P, 'pauli_to_bsf', [A[0]], P.call('pauli_to_bsf({!r})'.format(A[0]),
+                                                                          pt.pauli_to_bsf, [A[0]]))
+                    truth_and_case(ctx, P, 'pauli_to_bsf', [[A[0]]], P.call('pauli_to_bsf([{!r}])'.format(A[0]),
+                                                                            pt.pauli_to_bsf, [[A[0]]]))
+                    truth_and_case(ctx, P, 'bsf_to_pauli', [Ai[0]], P.call('bsf_to_pauli({})'.format(A[0]),
+                                                                           pt.bsf_to_pauli, [Ai[0]], held))
+                    truth_and_case(ctx, P, 'bsf_to_pauli', [Ai[:1]], P.call('bsf_to_pauli(<stack of 1> [{}])'.format(A[0]),
+                                                                            pt.bsf_to_pauli, [Ai[:1]], held))
+                else:
+                    r = P.call('bsf_to_pauli(<empty stack, 0 x {}>)'.format(2 * n), pt.bsf_to_pauli, [Ai], held)
+                    if r is not None and r != []:
+                        P.fail('bsf_to_pauli of the empty stack is not the empty list', {'got': repr(r)})
+                    r = P.call('bsf_wt(<empty stack, 0 x {}>)'.format(2 * n), pt.bsf_wt, [Ai], held)
+                    if r is not None and r_int(r) != '0':
+                        P.fail('bsf_wt of the empty stack is not 0', {'got': repr(r)})
+                if P.failed:
+                    return
+
+
 # ------------------------------------------------------------------------------------------ dtypes x argument shapes
 # bsf arrays reach bsp with whatever dtype the caller's arithmetic produced (comparisons / logical_xor give bool,
 # packed storage gives uint8, np.mod of int8 data gives int8 ...) and in four argument forms.  Each (form, dtype of a,
@@ -962,10 +1174,16 @@ def search(m):
         b = pt.pauli_to_bsf(s)
         n = len(s)
         exp = [int(c in 'XY') for c in s] + [int(c in 'ZY') for c in s]
-        if list(b) != exp or pt.bsf_to_pauli(np.array(exp)) != s:
+        if r_bits(b, 2 * n) != bits(exp) or pt.bsf_to_pauli(np.array(exp)) != s:
             return {'what': 'string<->bsf is not the documented bijection', 'pauli': s,
-                    'pauli_to_bsf': bits(b), 'expected': bits(exp),
-                    'bsf_to_pauli(expected)': pt.bsf_to_pauli(np.array(exp))}
+                    'pauli_to_bsf': r_bits(b, 2 * n), 'expected': bits(exp),
+                    'bsf_to_pauli(expected)': repr(pt.bsf_to_pauli(np.array(exp)))}
+        # the same operator as a one-element list: a 1 x 2n matrix / a list of one string
+        b1 = pt.pauli_to_bsf([s]); s1 = pt.bsf_to_pauli(np.array([exp]))
+        if r_mat(b1, (1, 2 * n)) != bits(exp) or s1 != [s]:
+            return {'what': 'list<->matrix conversion of a single-operator stack is not the documented bijection',
+                    'paulis': [s], 'pauli_to_bsf': r_mat(b1, (1, 2 * n)), 'expected': bits(exp),
+                    'bsf_to_pauli([expected])': repr(s1)}
     if op in ('bsp', 'anti'):
         if op == 'bsp':
             a = np.array([int(c) for c in toks[2]]); b = np.array([int(c) for c in toks[3]])
@@ -986,21 +1204,29 @@ def search(m):
         B = np.array([[int(c) for c in r] for r in toks[3].split('/')]) if op == 'bspmat' else None
         if op == 'synd':
             B = A; A = np.array([[int(c) for c in toks[3]]])
-        M = pt.bsp(A, B.T)
-        for i in range(len(A)):
-            for j in range(len(B)):
-                if int(M[i][j]) != int(pt.bsp(A[i], B[j])):
-                    return {'what': 'matrix form of bsp differs from vector form', 'i': i, 'j': j,
-                            'A': mat(A), 'B': mat(B)}
-        for i in range(len(A)):
-            for j in range(len(B)):
-                n = A.shape[1] // 2
-                s = ''.join('IXZY'[A[i][q] + 2 * A[i][n + q]] for q in range(n))
-                t = ''.join('IXZY'[B[j][q] + 2 * B[j][n + q]] for q in range(n))
-                truth = sum(ANTI[(x, y)] for x, y in zip(s, t)) % 2
-                if int(M[i][j]) != truth:
-                    return {'what': 'bsp disagrees with Pauli-group commutation', 'a': s, 'b': t,
-                            'bsp': int(M[i][j]), 'anticommute': truth}
+        m, k = len(A), len(B)
+        sa, sb = [py_of_bsf(r) for r in A], [py_of_bsf(r) for r in B]
+        truth = np.array([[py_anti(p, q) for q in sb] for p in sa])
+        # all four forms on this stacking: documented shape, then entry-wise agreement with the commutation
+        forms = [('matrix.matrix bsp(A, B.T)', lambda: pt.bsp(A, B.T), (m, k), truth)]
+        forms += [('vector.matrix bsp(A[{}], B.T)'.format(i), (lambda i=i: pt.bsp(A[i], B.T)), (k,), truth[i])
+                  for i in range(m)]
+        forms += [('matrix.vector bsp(A, B[{}])'.format(j), (lambda j=j: pt.bsp(A, B[j])), (m,), truth[:, j])
+                  for j in range(k)]
+        forms += [('vector.vector bsp(A[{}], B[{}])'.format(i, j), (lambda i=i, j=j: pt.bsp(A[i], B[j])), (),
+                   truth[i, j]) for i in range(m) for j in range(k)]
+        for name, f, shape, want in forms:
+            try:
+                r = f()
+            except Exception as ex:
+                return {'what': name + ' raises on a valid stacking', 'A': sa, 'B': sb, 'exception': repr(ex)}
+            if np.shape(r) != shape:
+                return {'what': 'the forms of bsp do not agree element-wise: {} has shape {} for a stack of {} and a stack '
+                                'of {} operator(s), the documented shape is {}'.format(name, np.shape(r), m, k, shape),
+                        'A': sa, 'B': sb, 'result': repr(r)[:200]}
+            if not np.array_equal(np.asarray(r), want):
+                return {'what': 'bsp disagrees with Pauli-group commutation in the form ' + name, 'A': sa, 'B': sb,
+                        'bsp': np.asarray(r).tolist(), 'anticommute': np.asarray(want).tolist()}
     if op in ('bsfwt', 'bsfwtmat', 'pauliwt'):
         if op == 'pauliwt':
             s = toks[2]
